@@ -226,6 +226,9 @@ def run_shard(shard):
                 for qe in pts:
                     if qs < qe and qs >= max(lo - 4, 0) and qe <= hi + 4:
                         check_query(res, grp, (qs, qe))
+        for idx, (B, win) in enumerate(multi_cases()):
+            if idx % shard["n"] == shard["i"]:
+                check_query_multi(res, B, win)
         res.sample({"query": "strict/relaxed range queries on collections at boundary coordinates vs brute force"})
     elif part == "lattice":
         lens = [0, 1, 2, (1 << 14), (1 << 17) - 1, (1 << 17), (1 << 17) + 1, (1 << 20) - 1, (1 << 20), (1 << 20) + 1, (1 << 23), (1 << 23) + 1, (1 << 26), (1 << 26) + 1, (1 << 29) - 1]
@@ -347,6 +350,26 @@ def check_query(res, spans, qrange):
     case = {"query": [list(x) for x in spans], "range": [qs, qe]}
     res.state(("query", tuple(spans), qs, qe))
     res.nontriv(("query", tuple(spans), qs, qe))
+    # history: the bin set of a window is a value.  It is asked for before anything else, a DIFFERENT collection (only
+    # the first gene) is queried with the same window first, and the caller's own copy of the set is emptied; none of
+    # that may change what the window's bin set is afterwards or what the full collection answers
+    before = lib.outcome(lambda: frozenset(bins(qs, qe, fmt="bed", one=False)))
+    sub = AnnotationCollection(genes=[GeneInterval([lib.mk_tx((spans[0],), "+", transcript_id="t0")], gene_id="g0")], start=max(lo, 0), end=hi)
+    for cw in (True, False):
+        res.trans()
+        o = lib.outcome(lambda: sorted(g.gene_id for g in sub.query_by_position(qs, qe, completely_within=cw).genes))
+        s0, e0 = spans[0]
+        exp = ["g0"] if ((s0 >= qs and e0 <= qe) if cw else (s0 < qe and e0 > qs)) else []
+        if o[0] != "ok" or o[1] != exp:
+            res.deviation("query_by_position", dict(completely_within=cw, sub_collection=True, **case), o[1], exp, sig="query-membership-sub-" + ("strict" if cw else "relaxed"))
+    mine = lib.outcome(lambda: bins(qs, qe, fmt="bed", one=False))
+    if mine[0] == "ok" and isinstance(mine[1], set):
+        mine[1].clear()
+    after = lib.outcome(lambda: frozenset(bins(qs, qe, fmt="bed", one=False)))
+    res.trans()
+    if before[0] == "ok" and (after[0] != "ok" or after[1] != before[1]):
+        res.deviation("bins", dict(history="bins, query on another collection, caller empties its copy, bins", **case),
+                      sorted(after[1]) if after[0] == "ok" else after[1], sorted(before[1]), sig="bins-set-history-dependent")
     for cw in (True, False):
         o = lib.outcome(lambda: sorted(g.gene_id for g in ac.query_by_position(qs, qe, completely_within=cw).genes))
         res.trans()
@@ -359,8 +382,62 @@ def check_query(res, spans, qrange):
             res.deviation("query_by_position", dict(completely_within=cw, **case), o[1], exp, sig="query-membership-" + ("strict" if cw else "relaxed"))
 
 
+def check_query_multi(res, B, window):
+    """a gene / feature collection whose members lie in DIFFERENT smallest-level bins (one just below the boundary B,
+    one a whole 128 kb bin above it) and a window anywhere around and between them: the answer is brute force over the
+    spans of the top-level children (a gene overlaps a window lying between its isoforms)"""
+    from vlib import lib
+    from inscripta.biocantor.gene.gene import GeneInterval
+    from inscripta.biocantor.gene.feature import FeatureIntervalCollection
+    from inscripta.biocantor.gene.collections import AnnotationCollection
+
+    W = 1 << 17
+    members = [(B - 3, B - 1), (B + W + 1, B + W + 3)]
+    lone = (B + 2, B + 4)
+    gene = GeneInterval([lib.mk_tx((m,), "+", transcript_id=f"t{i}") for i, m in enumerate(members)], gene_id="multi")
+    fc = FeatureIntervalCollection([lib.mk_feat((m,), "-", feature_id=f"f{i}") for i, m in enumerate(members)], feature_collection_id="multifc")
+    g1 = GeneInterval([lib.mk_tx((lone,), "-", transcript_id="tl")], gene_id="lone")
+    ac = AnnotationCollection(genes=[gene, g1], feature_collections=[fc], start=max(B - 10, 0), end=B + W + 10)
+    spans = {"multi": (members[0][0], members[1][1]), "multifc": (members[0][0], members[1][1]), "lone": lone}
+    qs, qe = window
+    case = {"multi": B, "range": [qs, qe]}
+    res.state(("multi", B, qs, qe))
+    res.nontriv(("multi", B, qs, qe))
+    for cw in (True, False):
+        res.trans()
+        def ask():
+            r = ac.query_by_position(qs, qe, completely_within=cw)
+            return sorted([g.gene_id for g in r.genes] + [f.feature_collection_id for f in r.feature_collections])
+
+        o = lib.outcome(ask)
+        if cw:
+            exp = sorted(k for k, (s, e) in spans.items() if s >= qs and e <= qe)
+        else:
+            exp = sorted(k for k, (s, e) in spans.items() if s < qe and e > qs)
+        res.note("query-multi", ("strict" if cw else "relaxed") + ("-between" if members[0][1] <= qs and qe <= members[1][0] else ""))
+        if o[0] != "ok" or o[1] != exp:
+            res.deviation("query_by_position", dict(completely_within=cw, **case), o[1], exp, sig="query-multi-membership-" + ("strict" if cw else "relaxed"))
+
+
+def multi_cases():
+    W = 1 << 17
+    for s in SHIFTS:
+        for m in (1, 2, 8):
+            B = m << s
+            if B + 2 * W >= MAXC:
+                continue
+            pts = [B - 5, B - 3, B - 2, B - 1, B, B + 1, B + 3, B + 5, B + 9, B + W - 1, B + W, B + W + 1, B + W + 2, B + W + 3, B + W + 6]
+            for qs in pts:
+                for qe in pts:
+                    if 0 < qs < qe:
+                        yield B, (qs, qe)
+
+
 def replay(case):
     res = ShardResult()
+    if "multi" in case:
+        check_query_multi(res, case["multi"], tuple(case["range"]))
+        return res.deviations
     if "stored" in case:
         check_stored(res, tuple(case["span"]), case["stored"])
         return res.deviations
